@@ -98,7 +98,10 @@ func FindArrayIndex(str string) ([][]int, error) {
 		switch r {
 		case '\\':
 			{
-				i++
+				// inside a backtick identifier a backslash is a character of the name, not an escape
+				if hold == nil || *hold != '`' {
+					i++
+				}
 			}
 		case '"':
 			{
